@@ -25,6 +25,35 @@ Theorem T08_2_star_import_collected :
 Proof. exact star_import_collected. Qed.
 Print Assumptions T08_2_star_import_collected.
 
+(* T08.2c (round 4) names the client writes as call keywords / match-class keyword patterns, members a
+   client subclass defines on top of a library base class, `__all__` under a starred import, and the source
+   spelling `__n` of a private member reached as `obj._C__n` are collected. *)
+Theorem T08_2_keyword_collected : forall f a, In (OKeyword a) (f_occs f) -> In a (used_names f).
+Proof. exact keyword_collected. Qed.
+Print Assumptions T08_2_keyword_collected.
+
+Theorem T08_2_submember_collected : forall f n, In (OSubMember n) (f_occs f) -> In n (used_names f).
+Proof. exact submember_collected. Qed.
+Print Assumptions T08_2_submember_collected.
+
+Theorem T08_2_star_import_keeps_all :
+  forall f a, In a (f_imports f) -> i_from a = true -> i_name a = "*" -> In "__all__" (used_names f).
+Proof. exact star_import_keeps_all. Qed.
+Print Assumptions T08_2_star_import_keeps_all.
+
+Theorem T08_2_mangled_access_collected :
+  forall f b c n, In (OAttr b ("_" ++ c ++ n)%string) (f_occs f) ->
+                  1 <= String.length c -> prefix "__" n = true -> 3 <= String.length n ->
+                  In n (used_names f).
+Proof. exact mangled_access_collected. Qed.
+Print Assumptions T08_2_mangled_access_collected.
+
+Example T08_2_mangled_example :
+  used_names {| f_imports := [{| i_from := false; i_name := "lib"; i_as := None |}];
+                f_occs := [OName "lib"; OAttr (Some "lib") "A"; OAttr None "_A__secret"] |}
+  = ["lib"; "A"; "lib"; "_A__secret"; "__secret"].
+Proof. vm_compute. reflexivity. Qed.
+
 (* R08.2 on the pinned tree a name that is only from-imported was not collected. *)
 Theorem R08_2_pinned_from_import_not_collected :
   exists f a, In a (f_imports f) /\ i_from a = true /\ ~ In (i_name a) (used_names_pinned f).
